@@ -9,7 +9,7 @@ TRUSTED = [
     'correspondence: in-package Go drivers harness/multiplex/c14_test.go (real datagramBufferedPipe, white box) and c14_sess_test.go (real unordered Session pair over harness-owned in-memory conns, all 4 encryption methods) vs extracted OCaml model (ExtrOcamlBasic only), ocaml/c14_driver.ml',
     'blocking (sync.Cond), read deadlines and the 2^31-1 buffer limit are not exercised: a read that would block is reported as "empty" after inspecting the pipe under its lock; WrWouldBlock exists in the model only',
     'the cipher/obfuscation layer is used as is (C04/C11 cover it); which connection a frame travels on is read off the harness network and fed to the model as input',
-    'relay level: client.RouteUDP is driven through a real loopback UDP socket against a real unordered Session pair (harness/client/c14_udp_test.go); its 8192-byte read buffer is a literal, modelled as relay_buf and measured by the driver; the server-side udp ProxyBook relay (Stream.ReadFrom on a UDP socket) is not driven',
+    'relay level: client.RouteUDP (harness/client/c14_udp_test.go) and the server relay serveSession with a "udp" ProxyBook entry (harness/server/c14_udp_test.go) are driven through real loopback UDP sockets against a real unordered Session pair; the relay buffer sizes are literals in the source, modelled as relay_buf (65535) / Stream.ReadFrom reading maxStreamUnitWrite bytes and measured by the drivers; Linux semantics of recvfrom into a short buffer (silent truncation) is assumed by the model and observed by the drivers',
 ]
 ASSUMPTIONS = ['healthy session / open stream for the exactly-once half (the at-most-once half and the boundary theorems are unconditional)',
                'total buffered bytes below recvBufferSizeLimit = 2^31-1 for "every write is accepted" (otherwise the write blocks)',
@@ -475,14 +475,23 @@ def correspondence(ctx, verdict, pr):
 
 
 RELAY_SIZES = [1, 100, 8191, 8192, 8193, 9000, 16132, 16133]
+SRV_RELAY_SIZES = [1, 100, 8193, 16131, 16132, 16133, 20000]
 
 
 def relay_part(ctx, verdict, res):
-    """Design finding F15: client.RouteUDP on a loopback UDP socket.  Property at the relay: a datagram
-    that fits one frame arrives whole in both directions; a larger one is refused, not forwarded cut."""
+    """Relay level (design finding F15).  Property at the relays: a datagram that fits one frame arrives
+    whole in both directions; a larger one is refused at the sender, never forwarded cut."""
+    client_relay(ctx, verdict, res)
+    server_relay(ctx, verdict, res)
+
+
+def client_relay(ctx, verdict, res):
+    """client.RouteUDP on a loopback UDP socket against a real unordered Session pair"""
     inp = '%s/udp.in' % ctx.work
     out = '%s/udp.go.out' % ctx.work
     open(inp, 'w').write('u0 UDP %s\n' % ' '.join(map(str, RELAY_SIZES)))
+    if os.path.exists(out):
+        os.remove(out)
     rc, log, dt = vlib.go_test(ctx, 'client', 'TestVerifC14UDP', files=['c14_udp_test.go'],
                                env=dict(VERIF_IN=inp, VERIF_OUT=out), timeout=300)
     impl = vlib.read_lines_by_id(out).get('u0')
@@ -493,56 +502,117 @@ def relay_part(ctx, verdict, res):
     maxu = int(toks[0].split(':')[1])
     ups = [t.split(':') for t in toks if t.startswith('up:')]
     downs = [t.split(':') for t in toks if t.startswith('down:')]
-    # model: what goes into the stream for a datagram of each size
-    mlines = ['q%d Q %d %s' % (i, LIMIT, u[1]) for i, u in enumerate(ups)]
+    # model: what goes into the stream / to the application for a datagram of each size
+    mlines, expect = [], {}
+    for i, u in enumerate(ups):
+        mlines.append('q%d Q %d %s' % (i, LIMIT, u[1]))
+        expect['q%d' % i] = ('uplink', u[1], '%s:%s:%s' % (u[2], u[3], u[4]) if u[2].isdigit() else 'none:0:0')
+    for i, d in enumerate(downs):
+        if d[2] == 'writeerr':      # the peer's own Stream.Write refused it: not the relay's business
+            continue
+        mlines.append('qd%d QD %d %s' % (i, LIMIT, d[1]))
+        expect['qd%d' % i] = ('downlink', d[1], '%s:%s:%s' % (d[2], d[3], d[3]) if d[2].isdigit() else 'none:0:0')
     mrc, merr, model = run_model(ctx, mlines, 'udp')
     if mrc != 0:
         res['broken'].append(('extracted model c14 failed on the relay cases', merr[-2000:]))
     diffs = []
-    for i, u in enumerate(ups):
-        got = '%s:%s:%s' % (u[2], u[3], u[4]) if u[2].isdigit() else 'none:0:0'
-        if model.get('q%d' % i) is not None and model['q%d' % i] != got:
-            diffs.append('datagram of %s bytes: implementation %s, model %s' % (u[1], got, model['q%d' % i]))
+    for mid, (what, size, got) in expect.items():
+        mo = model.get(mid)
+        if mo is not None and mo.split(':')[:2] != got.split(':')[:2]:
+            diffs.append('%s datagram of %s bytes: implementation %s, model %s' % (what, size, got, mo))
     if diffs:
-        res['broken'].append(('model route_udp_up (relay_buf = 8192) vs client.RouteUDP', '\n'.join(diffs)))
-    verdict.cov['relay_observations'] = impl
+        res['broken'].append(('model relay_up / relay_down (relay_buf = 65535) vs client.RouteUDP', '\n'.join(diffs)))
+    verdict.cov['relay_observations_client'] = impl
     verdict.cov['traces_validated_against_impl'] = verdict.cov.get('traces_validated_against_impl', 0) + len(model)
-    # oracle
     replay = dict(kind='UDP', sizes=RELAY_SIZES, implementation=impl, evs=None,
-                  how='VERIF_IN=<file with "u0 UDP <sizes>"> go test -overlay ... -run TestVerifC14UDP ./internal/client/ ; or python3 tools/check.py C14 --replay <this file>')
+                  how='python3 tools/check.py C14 --replay <this file>   (or: VERIF_IN=<file with "u0 UDP <size>"> VERIF_OUT=<out> go test -overlay ... -run TestVerifC14UDP ./internal/client/)')
     for u in ups:
         size = int(u[1])
         if size <= maxu and u[3] != '1':
             verdict.oracle_failure('relay:uplink-truncated',
                                    'client.RouteUDP uplink: a %d-byte datagram (fits one frame, max %d) reached the peer stream as %s bytes%s' % (
-                                       size, maxu, u[2], ' (a prefix of it)' if u[4] == '1' else ''), dict(replay, size=size))
+                                       size, maxu, u[2], ' (a prefix of it)' if u[4] == '1' else ''), dict(replay, size=size, case='u0 UDP %d' % size))
             break
     for u in ups:
         size = int(u[1])
         if size > maxu and u[2].isdigit():
             verdict.oracle_failure('relay:oversize-forwarded-truncated',
                                    'client.RouteUDP uplink: a %d-byte datagram (larger than one frame, max %d) was not refused but forwarded as %s bytes' % (size, maxu, u[2]),
-                                   dict(replay, size=size))
+                                   dict(replay, size=size, case='u0 UDP %d' % size))
             break
     for d in downs:
         size = int(d[1])
         if size <= maxu and d[3] != '1':
             verdict.oracle_failure('relay:downlink-dropped',
                                    'client.RouteUDP downlink: a %d-byte datagram written by the peer (fits one frame, max %d) reached the application socket as: %s' % (size, maxu, d[2]),
-                                   dict(replay, size=size))
+                                   dict(replay, size=size, case='u0 UDP %d' % size))
+            break
+
+
+def server_relay(ctx, verdict, res):
+    """serveSession with a "udp" ProxyBook entry: the proxy server is a loopback UDP socket"""
+    inp = '%s/sudp.in' % ctx.work
+    out = '%s/sudp.go.out' % ctx.work
+    open(inp, 'w').write('s0 SUDP %s\n' % ' '.join(map(str, SRV_RELAY_SIZES)))
+    if os.path.exists(out):
+        os.remove(out)
+    rc, log, dt = vlib.go_test(ctx, 'server', 'TestVerifC14SrvUDP', files=['c14_udp_test.go'],
+                               env=dict(VERIF_IN=inp, VERIF_OUT=out), timeout=300)
+    impl = vlib.read_lines_by_id(out).get('s0')
+    if rc != 0 or not impl:
+        res['broken'].append(('Go driver TestVerifC14SrvUDP (serveSession with a udp proxy on loopback) failed to build or run', log[-3000:]))
+        return
+    toks = impl.split()
+    maxu = int(toks[0].split(':')[1])
+    ups = [t.split(':') for t in toks if t.startswith('up:')]
+    downs = [t.split(':') for t in toks if t.startswith('down:')]
+    mlines, expect = [], {}
+    for i, d in enumerate(downs):
+        mlines.append('qs%d QS %d %s' % (i, LIMIT, d[1]))
+        expect['qs%d' % i] = (d[1], '%s:%s:%s' % (d[2], d[3], d[4]) if d[2].isdigit() else 'none:0:0')
+    mrc, merr, model = run_model(ctx, mlines, 'sudp')
+    if mrc != 0:
+        res['broken'].append(('extracted model c14 failed on the server relay cases', merr[-2000:]))
+    diffs = ['datagram of %s bytes from the proxy server: implementation %s, model %s' % (size, got, model[mid])
+             for mid, (size, got) in expect.items() if model.get(mid) is not None and model[mid] != got]
+    if diffs:
+        res['broken'].append(('model stream_read_from_dgram vs serveSession / Stream.ReadFrom on a UDP socket', '\n'.join(diffs)))
+    verdict.cov['relay_observations_server'] = impl
+    verdict.cov['traces_validated_against_impl'] = verdict.cov.get('traces_validated_against_impl', 0) + len(model)
+    replay = dict(kind='SUDP', sizes=SRV_RELAY_SIZES, implementation=impl, evs=None,
+                  how='python3 tools/check.py C14 --replay <this file>   (or: VERIF_IN=<file with "s0 SUDP <size>"> VERIF_OUT=<out> go test -overlay ... -run TestVerifC14SrvUDP ./internal/server/)')
+    for u in ups:
+        if u[3] != '1':
+            verdict.oracle_failure('relay:server-uplink-damaged',
+                                   'serveSession uplink: a %s-byte datagram written on the client stream reached the proxy server as %s bytes' % (u[1], u[2]),
+                                   dict(replay, size=int(u[1]), case='s0 SUDP %s' % u[1]))
+            break
+    for d in downs:
+        size = int(d[1])
+        if size <= maxu and d[3] != '1':
+            verdict.oracle_failure('relay:server-downlink-damaged',
+                                   'serveSession downlink: a %d-byte datagram from the proxy server (fits one frame, max %d) reached the client stream as %s bytes' % (size, maxu, d[2]),
+                                   dict(replay, size=size, case='s0 SUDP %d' % size))
+            break
+    for d in downs:
+        size = int(d[1])
+        if size > maxu and d[2].isdigit():
+            verdict.oracle_failure('relay:server-oversize-forwarded-truncated',
+                                   'serveSession downlink: a %d-byte datagram from the proxy server (larger than one frame, max %d) was not refused but forwarded as its first %s bytes' % (size, maxu, d[2]),
+                                   dict(replay, size=size, case='s0 SUDP %d' % size))
             break
 
 
 def replay(ctx, verdict):
     r = ctx.replay
-    if r.get('kind') == 'UDP':
+    if r.get('kind') in ('UDP', 'SUDP'):
         v2 = vlib.Verdict(ctx)
         res = dict(broken=[])
-        relay_part(ctx, v2, res)
-        print('implementation:', v2.cov.get('relay_observations'))
+        (client_relay if r['kind'] == 'UDP' else server_relay)(ctx, v2, res)
+        print('implementation:', v2.cov.get('relay_observations_client') or v2.cov.get('relay_observations_server'))
         print('broken:', res['broken'])
-        print('oracle (known findings):', sorted(v2.known_seen.values()), 'new:', [w for _, _, w in v2.violations])
-        return 1 if (v2.known_seen or v2.violations) else 0
+        print('oracle: known findings:', sorted(v2.known_seen.values()), ' new:', [w for _, _, w in v2.violations])
+        return 1 if v2.violations else 0
     if not r.get('evs'):
         print(json.dumps(r, indent=1)[:4000]); return 0
     case = ('replay', r['kind'], r['evs'], r['meta'])
@@ -558,5 +628,5 @@ def replay(ctx, verdict):
 MANIFEST = dict(
     technique='Coq proof by representation invariant over all operation sequences of a hand-written model (pipe: writes/reads/close; session receive side: frame arrivals for any stream ids, reads, closes); model tied to the code by differential execution (extracted OCaml vs in-package Go drivers on the real datagramBufferedPipe and on a real unordered Session pair over harness-owned connections)',
     level_text='Theorems C14_boundaries, C14_read_outcomes, C14_short_read_noop, C14_all_accepted, C14_exactly_once, C14_closing, C14_oversize_refused/fitting_one_frame/never_splits, C14_isolation and C14_session_accepts are proved in Coq for every operation sequence, every datagram content and size, every read-buffer size and every interleaving of frame arrivals across streams (induction with an explicit representation invariant; no bound). The model (coq/Model/Datagram.v) is hand-written; on every run thousands of seeded op sequences are executed on the real datagramBufferedPipe and ~100 scenarios (all four encryption methods, 1-4 connections, arbitrary cross-connection delivery order) on a real unordered Session pair, every return value is compared with the extracted model, and an independent oracle checks per-stream exactly-once/whole/unmixed delivery, refusal of oversize writes and non-consuming short reads.',
-    level_note='Trusted: Coq kernel; extraction (ExtrOcamlBasic); blocking/wake-up (sync.Cond), deadlines and the 2^31-1 buffer limit are not modelled beyond a would-block outcome; obfuscation and the switchboard are exercised but not modelled (the connection choice is read off the harness network). Relay level: client.RouteUDP is replayed on loopback UDP; its 8192-byte buffer violates the property for datagrams of 8193..16132 bytes (C14_relay_refuted, known finding F15); the server-side UDP relay is not driven.',
+    level_note='Trusted: Coq kernel; extraction (ExtrOcamlBasic); blocking/wake-up (sync.Cond), deadlines and the 2^31-1 buffer limit are not modelled beyond a would-block outcome; obfuscation and the switchboard are exercised but not modelled (the connection choice is read off the harness network). Relay level: client.RouteUDP (fixed in /repo e32244c: C14_relay_full holds, C14_refuted_prefix_relay documents the former 8192-byte buffer) and the server relay are replayed on loopback UDP; open known finding: the server relay forwards a datagram above the frame maximum cut to maxStreamUnitWrite bytes instead of refusing it (C14_server_relay_refuted / _partial).',
     design_ref='DESIGN.md section 6, C14')
